@@ -188,6 +188,42 @@ pub fn run(run: &Run) {
             });
         }
     }
+    // the observations in another order (rotations, stride permutations, every permutation of five points): least
+    // squares does not depend on the order in which the pairs are listed
+    {
+        let mut orders: Vec<(Vec<f64>, Vec<usize>)> = Vec::new();
+        for x in small_sets.iter().take(4) {
+            let n = x.len();
+            for r in 1..n {
+                orders.push((x.clone(), (0..n).map(|i| (i + r) % n).collect()));
+            }
+            for st in 2..n {
+                if (1..=n).all(|g| g == 1 || n % g != 0 || st % g != 0) {
+                    orders.push((x.clone(), (0..n).map(|i| (i * st + 1) % n).collect()));
+                }
+            }
+        }
+        crate::common::enumerate::permutations(5, |p| orders.push((small_sets[0].clone(), p.to_vec())));
+        let big: Vec<f64> = (0..101).map(|i| -2.0 + 0.04 * i as f64).collect();
+        orders.push((big.clone(), (0..101).map(|i| (i * 37) % 101).collect()));
+        orders.push((big.clone(), (0..101).map(|i| (i + 50) % 101).collect()));
+        orders.par_iter().for_each(|(x, perm)| {
+            let n = x.len();
+            let xp: Vec<f64> = perm.iter().map(|&i| x[i]).collect();
+            for d in 0..n.min(5) {
+                let des = match design(&xp, d) {
+                    Some(des) if des.kappa <= 1e9 => des,
+                    _ => continue,
+                };
+                for pat in 0..3usize {
+                    let y: Vec<f64> = x.iter().enumerate().map(|(i, xv)| match pat { 0 => 1.0 - 2.0 * xv + 0.5 * xv * xv, 1 => [-1.0, 0.0, 1.0][(i * 7 + 1) % 3], _ => 0.3 - 1.1 * xv + 0.7 * xv * xv + 0.25 * xv * xv * xv + 0.1 * (((i * 13) % 7) as f64 - 3.0) }).collect();
+                    let yp: Vec<f64> = perm.iter().map(|&i| y[i]).collect();
+                    fit_suite(run, &xp, &yp, d, &des, None, "reordered observations");
+                    run.nontrivial(1);
+                }
+            }
+        });
+    }
     run.sample(|| "all-responses: x=[-2,-1,0,1,2], y over {-1,0,1}^5, degrees 0..4: V^T(y - V c) = 0 within the conditioning bound".to_string());
     // 2. polynomial + noise patterns on every abscissa family
     let jobs: Vec<(usize, usize)> = (0..sets.len()).flat_map(|s| (0..=6).map(move |d| (s, d))).collect();
